@@ -242,6 +242,46 @@ def emitted(node: ast.AST, self_n: str) -> Optional[Set[str]]:
     return None
 
 
+def entry_bound(wr: FuncInfo, ret: ast.Return) -> Optional[int]:
+    """Largest entry a permutation reaching this return may have, from the path condition
+    (``len(self) <= K`` gives K - 1, ``max(self) <= K`` gives K); None if unknown."""
+    self_n = wr.params[0]
+    conds: List[Tuple[ast.AST, bool]] = []
+
+    def walk(stmts, acc) -> bool:
+        for st in stmts:
+            if st is ret:
+                conds.extend(acc)
+                return True
+            if isinstance(st, ast.If):
+                if walk(st.body, acc + [(st.test, True)]):
+                    return True
+                if walk(st.orelse, acc + [(st.test, False)]):
+                    return True
+                # an ``if`` whose body always returns narrows what follows
+                if st.body and isinstance(st.body[-1], (ast.Return, ast.Raise)):
+                    acc = acc + [(st.test, False)]
+        return False
+
+    walk(wr.body, [])
+    best: Optional[int] = None
+    for test, pol in conds:
+        if not pol or not isinstance(test, ast.Compare) or len(test.ops) != 1:
+            continue
+        l, r, op = unparse(test.left), test.comparators[0], test.ops[0]
+        if not (isinstance(r, ast.Constant) and isinstance(r.value, int)):
+            continue
+        k = r.value
+        b = None
+        if l == f"len({self_n})":
+            b = k - 1 if isinstance(op, ast.LtE) else k - 2 if isinstance(op, ast.Lt) else None
+        elif l == f"max({self_n})":
+            b = k if isinstance(op, ast.LtE) else k - 1 if isinstance(op, ast.Lt) else None
+        if b is not None:
+            best = b if best is None else min(best, b)
+    return best
+
+
 def rule_n1(ctx: Ctx) -> None:
     repo = ctx.repo
     wr = repo.need_method("Perm", "__str__")
@@ -278,6 +318,14 @@ def rule_n1(ctx: Ctx) -> None:
         em = emitted(r.value, wr.params[0])
         if em is None:
             raise AnalysisError(f"{wr.where}: cannot determine the alphabet of `{unparse(r.value)[:60]}`")
+        if em <= DIGITS:
+            # entries are written without any separator: unambiguous only if every entry is a single digit
+            bound = entry_bound(wr, r)
+            if bound is None:
+                raise AnalysisError(f"{wr.where}: cannot bound the entries written without separators in `{unparse(r.value)[:50]}`")
+            if bound > 9:
+                ctx.violation("C09-N1", wr, r, f"entries up to {bound} are written as unseparated digits: a two-digit entry cannot be told from two entries, so from_string(str(p)) returns a different permutation")
+                continue
         extra = em - alphabet
         if extra:
             ctx.violation("C09-N1", wr, r, f"str() may emit {sorted(extra)} in `{unparse(r.value)[:60]}`, which from_string does not accept: from_string(str(p)) fails for permutations taking this branch")
@@ -315,10 +363,13 @@ def _variants():
         V("unrank-zero-bits", replace_expr(MP, "MeshPatt.unrank", "bit == '1'", "bit == '0'"), "fire", "C09-B1"),
         V("mesh-of-length-half", replace_expr(MP, "MeshPatt.of_length", "range(2 ** (length + 1) ** 2)", "range(2 ** (length + 1) ** 2 - 1)", which=1), "fire", "C09-B1"),
         V("from-string-digits-only", replace_stmt(PE, "Perm.from_string", "if string.startswith('('): ...", ""), "fire", "C09-N1", "the original defect"),
+        V("str-compact-by-max-10", replace_expr(PE, "Perm.__str__", "len(self) <= 10", "max(self) <= 10"), "fire", "C09-N1"),
+        V("str-compact-len-11", replace_expr(PE, "Perm.__str__", "len(self) <= 10", "len(self) <= 11"), "fire", "C09-N1"),
         V("str-other-separator", replace_expr(PE, "Perm.__str__", "''.join((f'({i})' for i in self))", "','.join((str(i) for i in self))"), "fire", "C09-N1"),
         V("validated-scans-then-builds", replace_stmt(PE, "Perm.from_iterable_validated", "perm = cls(iterable)", "if any(isinstance(v, bool) for v in iterable):\n    raise TypeError('bool')\nperm = cls(iterable)"), "fire", "C09-I1"),
         # silent
         V("reformat", reformat_only(MP), "silent"),
+        V("str-compact-by-max-9", replace_expr(PE, "Perm.__str__", "len(self) <= 10", "max(self) <= 9"), "silent"),
         V("of-length-return-gen", replace_stmt(PE, "Perm.of_length", "yield from (cls(perm) for perm in itertools.permutations(range(length)))", "return (cls(perm) for perm in itertools.permutations(range(length)))"), "silent"),
         V("up-to-length-via-of-length", replace_stmt(PE, "Perm.up_to_length", "for n in range(length + 1): ...", "for n in range(length + 1):\n    yield from cls.of_length(n)"), "silent"),
         V("rank-commuted", replace_expr(MP, "MeshPatt.rank", "x * (n + 1) + y", "y + (n + 1) * x"), "silent"),
